@@ -100,8 +100,11 @@ harness!(c13_extrapolate_with_bound, 8, |s| {
 // CBMC runs out of memory (> 23 GB for arguments <= 3), DESIGN.md section 8.
 // The prefix is one of a few concrete shapes, the query argument symbolic.
 fn single_query_body(s: &mut Src, d0: u64, d1: u64, via_clone: bool, xmask: u8) {
-    let d = [d0, d1, 0, 0];
-    let cached = ExtrapolatingCurve::new(mk_curve(&d, 2));
+    single_query_body_n(s, [d0, d1, 0, 0], 2, via_clone, xmask)
+}
+
+fn single_query_body_n(s: &mut Src, d: [u64; DM], n: usize, via_clone: bool, xmask: u8) {
+    let cached = ExtrapolatingCurve::new(mk_curve(&d, n));
     let x = s.bits(xmask);
     let got = if via_clone {
         // the clone shares the cache
@@ -110,21 +113,24 @@ fn single_query_body(s: &mut Src, d0: u64, d1: u64, via_clone: bool, xmask: u8) 
     } else {
         na(&cached, x)
     };
-    let mut eager = mk_curve(&d, 2);
+    let mut eager = mk_curve(&d, n);
     eager.extrapolate(Duration::from(x + 1));
     assert!(got == na(&eager, x));
+    // (for a "concave" prefix such as [1,5,6] the extrapolated value is strictly smaller than
+    // what whole-prefix repetition of the un-extrapolated vector would give)
     cover!(x as u8 == xmask && got >= 3, "query at the largest delta");
 }
 harness!(c13_cache_1_2, 12, |s| { single_query_body(s, 1, 2, false, 7); });
 harness!(c13_cache_0_1, 12, |s| { single_query_body(s, 0, 1, false, 3); });
 harness!(c13_cache_2_5, 12, |s| { single_query_body(s, 2, 5, false, 7); });
 harness!(c13_cache_1_3_clone, 12, |s| { single_query_body(s, 1, 3, true, 7); });
+harness!(c13_cache_1_5_6, 14, |s| { single_query_body_n(s, [1, 5, 6, 0], 3, false, 15); });
 
 pub fn register(t: &mut Table) {
     reg!(t;
         c13_extrapolate_within, c13_extrapolate_beyond_b, c13_extrapolate_conservative,
         c13_extrapolate_steps, c13_extrapolate_with_bound,
-        c13_cache_1_2, c13_cache_0_1, c13_cache_2_5, c13_cache_1_3_clone,
+        c13_cache_1_2, c13_cache_0_1, c13_cache_2_5, c13_cache_1_3_clone, c13_cache_1_5_6,
     );
 }
 
